@@ -191,12 +191,12 @@ Definition str_reject : bytes := [114;101;106;101;99;116]%N.
 
 Local Open Scope Z_scope.
 
-(* kind 3 zargs: d0 d1  q w p  done files (observed; ignored)  dropped (observed)
+(* kind 3 zargs: d0 d1  q (>= 1: a channel without buffer hands over differently) w p  done files (observed; ignored)  dropped (observed)
    output: ok:done=<0|1>;kept=<chunks in the queue>;dropped=<n>   or  reject (no run of the model drops that many) *)
 Definition run_qfull_case (c : case) : bytes :=
   let z := zarg c in
   let q := z 2%nat in let w := z 3%nat in let p := z 4%nat in let d := z 7%nat in
-  if (q <? 0) || (w <? 0) || (p <? 0) || (d <? 0) || (100000 <? q) || (100000 <? w) || (100000 <? p)
+  if (q <? 1) || (w <? 0) || (p <? 0) || (d <? 0) || (100000 <? q) || (100000 <? w) || (100000 <? p)
   then bad_case_output else
   let over := Z.max 0 (p - q) in
   let mind := Z.max 0 (over - (w + 1)) in
